@@ -81,12 +81,22 @@ func path(v ssa.Value, d int) string {
 	case *ssa.Const:
 		return constStr(x)
 	case *ssa.FieldAddr:
+		if al, ok := x.X.(*ssa.Alloc); ok {
+			if v := uniqueStore(al); v != nil {
+				return "&" + path(v, d+1) + "." + fieldName(x.X.Type(), x.Field)
+			}
+		}
 		return "&" + unamp(path(x.X, d+1)) + "." + fieldName(x.X.Type(), x.Field)
 	case *ssa.Field:
 		return path(x.X, d+1) + "." + fieldName(x.X.Type(), x.Field)
 	case *ssa.UnOp:
 		switch x.Op {
 		case token.MUL:
+			if al, ok := x.X.(*ssa.Alloc); ok {
+				if v := uniqueStore(al); v != nil {
+					return path(v, d+1)
+				}
+			}
 			return deref(path(x.X, d+1))
 		case token.ARROW:
 			return "<-" + path(x.X, d+1)
@@ -165,6 +175,63 @@ func path(v ssa.Value, d int) string {
 }
 
 func shortQual(p *types.Package) string { return p.Name() }
+
+// uniqueStore returns the value stored into a local when the local is
+// written by exactly one whole-value store and is otherwise only loaded from
+// or has its fields read (so every load observes that value or the zero
+// value). Struct literals assembled field by field are not resolved.
+func uniqueStore(al *ssa.Alloc) ssa.Value {
+	refs := al.Referrers()
+	if refs == nil {
+		return nil
+	}
+	var val ssa.Value
+	n := 0
+	for _, r := range *refs {
+		switch x := r.(type) {
+		case *ssa.Store:
+			if x.Addr == ssa.Value(al) {
+				n++
+				val = x.Val
+			} else {
+				return nil // address stored somewhere: escapes
+			}
+		case *ssa.UnOp:
+			// load
+		case *ssa.FieldAddr:
+			// field access: only reads allowed
+			if fr := x.Referrers(); fr != nil {
+				for _, rr := range *fr {
+					if st, ok := rr.(*ssa.Store); ok && st.Addr == ssa.Value(x) {
+						return nil
+					}
+					if _, ok := rr.(*ssa.UnOp); !ok {
+						if _, ok2 := rr.(*ssa.FieldAddr); !ok2 {
+							if _, ok3 := rr.(*ssa.DebugRef); !ok3 {
+								return nil
+							}
+						}
+					}
+				}
+			}
+		case *ssa.DebugRef:
+		default:
+			return nil
+		}
+	}
+	if n != 1 {
+		return nil
+	}
+	if _, isAlloc := val.(*ssa.Alloc); isAlloc {
+		return nil
+	}
+	if u, ok := val.(*ssa.UnOp); ok {
+		if _, isAlloc := u.X.(*ssa.Alloc); isAlloc {
+			return nil // copy of a field-assembled literal: keep the local's name
+		}
+	}
+	return val
+}
 
 func unamp(s string) string { return strings.TrimPrefix(s, "&") }
 
